@@ -82,6 +82,10 @@ func checkC18(p *Program, r *Result) {
 	for _, fn := range fns {
 		checkMessageLiteral(p, r, fn)
 	}
+	r.rule("C18.o", "records handed to the writer in a loop carry containers made in that iteration", 1)
+	checkPerIterationContainers(p, r, "C18.o", fns)
+	r.rule("C18.t", "constant-length tables have room for every id their index type admits", 1)
+	checkConstTables(p, r, "C18.t", fns)
 	r.rule("C18.q", "relative ROS 2 field types are qualified with the package of the definition they occur in", 1)
 	checkRos2Qualification(p, r, "C18.q")
 	r.rule("C18.u", "a deleted header key is not looked up afterwards", 1)
@@ -140,8 +144,14 @@ func checkC18(p *Program, r *Result) {
 // checkRowsErr: after a loop driven by (*sql.Rows).Next, rows.Err() must be called on the same rows value
 // on the loop-exit path (its result is then subject to C18.c).
 func checkRowsErr(p *Program, r *Result, fn *ssa.Function) {
+	checkIterErr(p, r, fn, "C18.c", "(*database/sql.Rows).Next", "(*database/sql.Rows).Err", "rows.Next", "rows.Err", "a database error")
+}
+
+// checkIterErr: an iteration protocol whose Next/Scan method returns false both at the end and on failure: the
+// failure is only visible through Err(), which must be consulted on every path that leaves the loop.
+func checkIterErr(p *Program, r *Result, fn *ssa.Function, rule, nextFn, errFn, nextLabel, errLabel, cause string) {
 	fname := funcName(fn)
-	for _, ci := range callsIn(fn, func(ci ssa.CallInstruction) bool { return calleeIs(ci, "(*database/sql.Rows).Next") }) {
+	for _, ci := range callsIn(fn, func(ci ssa.CallInstruction) bool { return calleeIs(ci, nextFn) }) {
 		call, ok := ci.(*ssa.Call)
 		if !ok {
 			continue
@@ -156,18 +166,18 @@ func checkRowsErr(p *Program, r *Result, fn *ssa.Function) {
 		}
 		pos := p.pos(call.Pos())
 		if exit == nil {
-			r.undecided("C18.c", fname, "rows.Next loop", pos, "result of rows.Next does not drive a branch")
+			r.undecided(rule, fname, nextLabel+" loop", pos, "result of "+nextLabel+" does not drive a branch")
 			continue
 		}
 		// every path from exit to a return must pass a rows.Err() call on the same value
 		ok2 := allPathsHit(exit, func(in ssa.Instruction) bool {
 			c, ok := in.(*ssa.Call)
-			return ok && calleeIs(c, "(*database/sql.Rows).Err") && sameValue(c.Call.Args[0], rows)
+			return ok && calleeIs(c, errFn) && sameValue(c.Call.Args[0], rows)
 		})
 		if ok2 {
-			r.held("C18.c", fname, "rows.Err after rows.Next loop", pos, "every loop-exit path consults rows.Err()")
+			r.held(rule, fname, errLabel+" after "+nextLabel+" loop", pos, "every loop-exit path consults "+errLabel+"()")
 		} else {
-			r.violated("C18.c", fname, "rows.Err after rows.Next loop", pos, "the loop over rows.Next() can end because of a database error, but rows.Err() is not consulted on some path to return; the conversion would end early with success")
+			r.violated(rule, fname, errLabel+" after "+nextLabel+" loop", pos, "the loop over "+nextLabel+"() can end because of "+cause+", but "+errLabel+"() is not consulted on some path to return; the operation would end early with success")
 		}
 	}
 }
